@@ -19,7 +19,8 @@ for f in os.listdir(os.path.join(wt, 'MUTANT')):
 r = subprocess.run(['/verif/tools/try_mutant.sh', os.path.join(dst, 'patch.diff')], capture_output=True, text=True)
 fired = [l for l in r.stdout.split('\n') if l.startswith('FIRED:')]
 viol = [l.strip()[:300] for l in r.stdout.split('\n') if 'violated:' in l]
-rules = sorted({l.split('violated:')[1].split()[0] for l in viol})
+rl = [l for l in r.stdout.split('\n') if l.startswith('RULES:')]
+rules = rl[0].replace('RULES:', '').split() if rl else []
 out = {
     'property': meta.get('property', mid),
     'origin': 'independent sub-agent given only the property text and a scratch worktree',
